@@ -264,7 +264,7 @@ Qed.
 (** the re-evaluated window ends just before a trip end, an empty slot or the end of the array *)
 Lemma window_start_spec (h : hist) : length (entries h) = MaxFlights ->
   hempty h = false -> (Nat.eqb (oc h) 0 && is_end (getf (entries h) 0)) = false -> (oc h < MaxFlights)%nat ->
-  exists k, (1 <= k)%nat /\ window_start h = Z.of_nat k - 1 /\ open_run (skipn k (entries h)) = [].
+  exists k, (1 <= k)%nat /\ (oc h <= k)%nat /\ window_start h = Z.of_nat k - 1 /\ open_run (skipn k (entries h)) = [].
 Proof.
   intros Hl Hne Hshort Hoc. unfold window_start, start_of_trip.
   destruct (sot_scan_spec (entries h) (S MaxFlights) (oc h) ltac:(lia)) as (k & Hk & Ek & Hstop & Hbefore).
@@ -273,7 +273,7 @@ Proof.
   { destruct k as [|k]; [|lia]. assert (oc h = 0)%nat by lia. exfalso.
     unfold hempty in Hne. apply Z.eqb_neq in Hne. rewrite H in Hshort. cbn [Nat.eqb andb] in Hshort.
     destruct Hstop as [Hs|[Hs|Hs]]; [unfold MaxFlights in Hs; lia|contradiction|congruence]. }
-  exists k. split; [exact Hk1|].
+  exists k. split; [exact Hk1|]. split; [exact Hk|].
   assert (Hrest : open_run (skipn k (entries h)) = []) by (apply open_run_skipn_stop; assumption).
   split; [|exact Hrest].
   replace (Z.to_nat (Z.of_nat k - 1 + 1)) with k by lia.
@@ -318,7 +318,7 @@ Proof.
   destruct (hempty h) eqn:Hne; [discriminate|].
   destruct (negb (now mod SecondsInDay =? 0)); [discriminate|].
   destruct (Nat.eqb (oc h) 0 && is_end (getf (entries h) 0)) eqn:Hshort; [discriminate|].
-  destruct (window_start_spec h Hlen Hne Hshort Hoc) as (k & Hk1 & Ew & Hrest).
+  destruct (window_start_spec h Hlen Hne Hshort Hoc) as (k & Hk1 & _ & Ew & Hrest).
   rewrite Ew. replace (Z.to_nat (Z.of_nat k - 1)) with (k - 1)%nat by lia.
   replace (S (k - 1)) with k by lia.
   set (l := entries h) in *.
